@@ -27,3 +27,47 @@ def random_fault_tables(rng):
     def tbl():
         return {c: rng.choice([1, 3, 4]) for c in conds if rng.random() < 0.45}
     return {"src_faults": tbl(), "dst_faults": tbl()}
+
+
+def fault_matrix_cases(tier, rng):
+    """C14's quantifier made explicit: every condition a handler can declare x every handler code x a scenario that
+    triggers it, on either side, in both modes.  Handler codes: 1 notice of cancellation, 2 notice of suspension,
+    3 ignore, 4 abandon."""
+    from harness import timers
+    from harness.transfer import Cfg, Fault
+    quick = tier == "quick"
+    codes = (1, 2, 3, 4)
+    for h in codes:
+        for side in ("src", "dst", "both"):
+            def tables(conds):
+                t = {c: h for c in conds}
+                return {"src_faults": t if side in ("src", "both") else {}, "dst_faults": t if side in ("dst", "both") else {}}
+            # Positive ACK Limit (1) at either side, NAK Limit (7) at the receiver: one or both directions fall silent
+            for N in ((1, 2) if quick else (1, 2, 3)):
+                for cut_dir in ("d2s", "s2d", "both"):
+                    cuts = [0, 1, 2, 3, 4, 5, 6] if not quick else rng.sample([0, 1, 2, 3, 4, 5, 6], 3)
+                    for cut in cuts:
+                        cfg = Cfg(mode=0, max_seg=4, ack_limit=N, nak_limit=N, imm_nak=rng.random() < 0.5, closure=rng.random() < 0.5,
+                                  disposition=rng.random() < 0.4, cktype=rng.choice([2, 3, 15]), **tables((1, 7)))
+                        yield timers.SilentCase(cfg, rng.choice([5, 9]), cut_dir, cut, None, tag="c14m")
+            # Check Limit (10): sender with closure never sees the Finished PDU; receiver's late data never arrives
+            for L in (1, 2):
+                for cut in (2, 3, 4):
+                    cfg = Cfg(mode=1, closure=True, max_seg=4, check_limit=L, check_ms=1000, ack_ms=1000, nak_ms=1000, **tables((10,)))
+                    yield timers.SilentCase(cfg, 5, "d2s", 0, None, tag="c14m")
+                    yield timers.SilentCase(cfg, 9, "s2d", cut, None, tag="c14m")
+                cfg = Cfg(mode=1, closure=rng.random() < 0.5, max_seg=4, check_limit=L, check_ms=1000, cktype=rng.choice([2, 3]),
+                          disposition=rng.random() < 0.4, **tables((10, 5)))
+                yield dstprops.LateDataCase(cfg, 2, [1], [L + 3])
+            # Checksum Failure (5): a flipped bit in a File Data PDU, both modes; Filestore Rejection (4): writes refused
+            for mode in (0, 1):
+                for k in (1, 2, 3):
+                    cfg = Cfg(mode=mode, closure=rng.random() < 0.5, max_seg=4, cktype=rng.choice([2, 3]), ack_limit=2, nak_limit=2,
+                              check_limit=2, disposition=rng.random() < 0.4, **tables((5, 4, 6, 10)))
+                    data = bytes(rng.getrandbits(8) for _ in range(9))
+                    yield campaign.TransferCase(cfg, [data], [Fault("s2d", k, "flip", rng.randint(1, 3))], tag="c14m")
+                    yield campaign.TransferCase(cfg, [data], [], None, reject_round=k, tag="c14m")
+            # File Size Error (6): File Data beyond the EOF's size / EOF smaller than the progress (receiver alone)
+            for _ in range(2 if quick else 12):
+                c = campaign.rand_hostile_case(rng, **tables((6, 5, 4)))
+                yield c
